@@ -129,38 +129,46 @@ func (s *snap) finish() {
 	s.TagK, s.TagV = k, v
 }
 
-// snapRegLocked reads the target repository out of the simreg state (host mutex held).
+// snapRegLocked reads the target repository (and the referrer target repository, names prefixed
+// "r/") out of the simreg state (host mutex held).
 func (w *world) snapRegLocked() *snap {
 	s := &snap{newDerived: map[string][]byte{}}
-	r := w.tgtHost.Repos[w.tgtRepo]
+	w.snapRepoLocked(s, w.tgtRepo, "")
+	if w.refsTgt != "" {
+		w.snapRepoLocked(s, refRepo, refPfx)
+	}
+	s.finish()
+	return s
+}
+
+func (w *world) snapRepoLocked(s *snap, repo, pfx string) {
+	r := w.tgtHost.Repos[repo]
 	if r == nil {
-		return s
+		return
 	}
 	for d, b := range r.Blobs {
 		n := w.name(d)
 		if w.identical(d, b) {
-			s.Blobs = append(s.Blobs, n)
+			s.Blobs = append(s.Blobs, pfx+n)
 		} else {
-			s.Bad = append(s.Bad, n)
+			s.Bad = append(s.Bad, pfx+n)
 		}
 	}
 	for d, m := range r.Manifests {
 		n := w.name(d)
 		if w.identical(d, m.Body) {
-			s.Mans = append(s.Mans, n)
+			s.Mans = append(s.Mans, pfx+n)
 		} else {
-			s.Bad = append(s.Bad, n)
+			s.Bad = append(s.Bad, pfx+n)
 		}
-		if _, known := w.nodes[n]; !known && !w.derived[n] {
-			s.newDerived[n] = m.Body
+		if _, known := w.nodes[n]; !known && !w.derived[pfx+n] {
+			s.newDerived[pfx+n] = m.Body
 		}
 	}
 	for t, d := range r.Tags {
-		s.TagK = append(s.TagK, w.tagSym(t))
-		s.TagV = append(s.TagV, w.name(d))
+		s.TagK = append(s.TagK, pfx+w.tagSym(t))
+		s.TagV = append(s.TagV, pfx+w.name(d))
 	}
-	s.finish()
-	return s
 }
 
 // snapDir reads the target layout: index.json first, then the blob directory, so that with
@@ -168,29 +176,38 @@ func (w *world) snapRegLocked() *snap {
 // when the directory was listed.
 func (w *world) snapDir() *snap {
 	s := &snap{newDerived: map[string][]byte{}}
+	w.snapOneDir(s, w.tgtDir, "")
+	if w.refDir != "" {
+		w.snapOneDir(s, w.refDir, refPfx)
+	}
+	s.finish()
+	return s
+}
+
+func (w *world) snapOneDir(s *snap, dir, pfx string) {
 	var idx struct {
 		Manifests []struct {
 			Digest      string            `json:"digest"`
 			Annotations map[string]string `json:"annotations"`
 		} `json:"manifests"`
 	}
-	if ib, err := os.ReadFile(filepath.Join(w.tgtDir, "index.json")); err == nil {
+	if ib, err := os.ReadFile(filepath.Join(dir, "index.json")); err == nil {
 		if json.Unmarshal(ib, &idx) == nil {
 			for _, m := range idx.Manifests {
 				if t, ok := m.Annotations["org.opencontainers.image.ref.name"]; ok {
-					s.TagK = append(s.TagK, w.tagSym(t))
-					s.TagV = append(s.TagV, w.name(m.Digest))
+					s.TagK = append(s.TagK, pfx+w.tagSym(t))
+					s.TagV = append(s.TagV, pfx+w.name(m.Digest))
 				}
 			}
 		}
 	}
-	ents, _ := os.ReadDir(filepath.Join(w.tgtDir, "blobs", "sha256"))
+	ents, _ := os.ReadDir(filepath.Join(dir, "blobs", "sha256"))
 	for _, e := range ents {
 		fn := e.Name()
 		if e.IsDir() || strings.HasSuffix(fn, ".tmp") || len(fn) != 64 {
 			continue
 		}
-		b, err := os.ReadFile(filepath.Join(w.tgtDir, "blobs", "sha256", fn))
+		b, err := os.ReadFile(filepath.Join(dir, "blobs", "sha256", fn))
 		if err != nil {
 			continue
 		}
@@ -201,21 +218,19 @@ func (w *world) snapDir() *snap {
 			isMan = nd.isMan()
 		} else if _, _, ok := parseKids(b); ok {
 			isMan = true
-			if !w.derived[n] {
-				s.newDerived[n] = b
+			if !w.derived[pfx+n] {
+				s.newDerived[pfx+n] = b
 			}
 		}
 		switch {
 		case !w.identical(d, b):
-			s.Bad = append(s.Bad, n)
+			s.Bad = append(s.Bad, pfx+n)
 		case isMan:
-			s.Mans = append(s.Mans, n)
+			s.Mans = append(s.Mans, pfx+n)
 		default:
-			s.Blobs = append(s.Blobs, n)
+			s.Blobs = append(s.Blobs, pfx+n)
 		}
 	}
-	s.finish()
-	return s
 }
 
 // recorder collects the events of one scenario.
@@ -242,10 +257,17 @@ func (r *recorder) derivedFactsLocked(s *snap) {
 			continue
 		}
 		r.w.derived[n] = true
-		r.events = append(r.events, vtrace.Event{"ev": "man", "n": n, "kind": "derived"})
-		kids, _, _ := parseKids(s.newDerived[n])
-		for _, k := range kids {
-			r.events = append(r.events, vtrace.Event{"ev": "edge", "p": n, "c": r.w.name(k), "role": "entry", "psel": 1, "hosted": 1})
+		base := strings.TrimPrefix(n, refPfx)
+		if !r.w.derived["base:"+base] {
+			r.w.derived["base:"+base] = true
+			r.events = append(r.events, vtrace.Event{"ev": "man", "n": base, "kind": "derived"})
+			kids, _, _ := parseKids(s.newDerived[n])
+			for _, k := range kids {
+				r.events = append(r.events, vtrace.Event{"ev": "edge", "p": base, "c": r.w.name(k), "role": "entry", "psel": 1, "hosted": 1})
+			}
+		}
+		if base != n {
+			r.events = append(r.events, vtrace.Event{"ev": "alias", "q": n, "n": base, "pfx": refPfx})
 		}
 	}
 }
@@ -283,7 +305,7 @@ func (w *world) side(rq *simreg.Request) string {
 		return "ext"
 	case w.sameRepo():
 		return "both"
-	case w.tgtHost != nil && rq.Host == w.tgtHost.Name && rq.Repo == w.tgtRepo:
+	case w.tgtHost != nil && rq.Host == w.tgtHost.Name && (rq.Repo == w.tgtRepo || (w.refsTgt != "" && rq.Repo == refRepo)):
 		return "tgt"
 	case w.srcHost != nil && rq.Host == w.srcHost.Name && rq.Repo == w.srcRepo:
 		return "src"
@@ -321,6 +343,9 @@ func (w *world) key(rq *simreg.Request) (side, class, n string) {
 	if side == "ext" {
 		class, n = "ext_"+strings.ToLower(rq.Method), filepath.Base(rq.Path)
 	}
+	if side == "tgt" && w.refsTgt != "" && rq.Repo == refRepo && n != "" {
+		n = refPfx + n
+	}
 	return side, class, n
 }
 
@@ -333,6 +358,9 @@ func (r *recorder) onRequest(rq *simreg.Request) {
 	isTgt := side == "tgt" || side == "both"
 	if rq.Class == "manifest_put" {
 		ev["pn"] = w.name(digestOf(rq.Body))
+		if w.refsTgt != "" && rq.Repo == refRepo {
+			ev["pn"] = refPfx + w.name(digestOf(rq.Body))
+		}
 		ev["fb"] = b2i(rq.IsTag && reFBTag.MatchString(rq.Ref))
 		ev["istag"] = b2i(rq.IsTag)
 	}
